@@ -94,12 +94,32 @@ def oracle(net):
 
 
 def check(case):
-    from synkit.CRN.Props.deficiency import DeficiencyAnalyzer
-    from synkit.CRN.Hypergraph.conversion import hypergraph_to_bipartite
-
     net = ec.parse_net(case)
     scheme = SCHEMES[zlib.crc32(case.encode()) % 3]
     H = ec.build_hypergraph(net, rules=scheme[0][: len(net)] if scheme[0] else None, ids=scheme[1][: len(net)] if scheme[1] else None)
+    return judge(H, net)
+
+
+def check_edit(case):
+    """analyse, edit the same object in place, analyse again"""
+    from mc import edit_layer as el
+
+    net = ec.parse_net(case["net"])
+    H = ec.build_hypergraph(net)
+    judge(H, net)  # first analysis (its verdict belongs to the plain sub-check)
+    net2 = el.apply_edit(H, net, case["edit"])
+    if not net2:
+        return Outcome(skipped="network_became_empty")
+    out = judge(H, net2)
+    for f in out.fails:
+        f.tag = "after_edit_" + f.tag
+    return out
+
+
+def judge(H, net):
+    from synkit.CRN.Props.deficiency import DeficiencyAnalyzer
+    from synkit.CRN.Hypergraph.conversion import hypergraph_to_bipartite
+
     want, lds, cxs = oracle(net)
     fails = []
     for view, obj in (("hypergraph", H), ("bipartite_str", hypergraph_to_bipartite(H)), ("bipartite_int", hypergraph_to_bipartite(H, integer_ids=True))):
@@ -126,7 +146,12 @@ def check(case):
 
 
 def subchecks(tier, seed):
-    return [Sub("networks", gen, check, key=lambda c: c, rule=RULE[tier])]
+    from mc import edit_layer as el
+
+    return [
+        Sub("networks", gen, check, key=lambda c: c, rule=RULE[tier]),
+        Sub("edited", lambda t, s: el.gen_edits(t), check_edit, key=lambda c: f"{c['net']} / {c['edit']}", rule="analyse, edit in place (replace a reaction under the same id / remove a species), analyse again; all such edits of every 2-reaction unit-coefficient network up to permutation (quick: 1 in 4 of the replacements)"),
+    ]
 
 
 def run(tier, seed):
